@@ -94,6 +94,15 @@ func viewOf(rs []*migrate.Revision) []revView {
 	return out
 }
 
+// stampsOf renders the columns of the history that say when and by which release a row was written.
+func stampsOf(rs []*migrate.Revision) string {
+	var b strings.Builder
+	for _, r := range rs {
+		fmt.Fprintf(&b, "%s@%d/%s ", r.Version, r.ExecutedAt.UnixNano(), r.OperatorVersion)
+	}
+	return b.String()
+}
+
 // C12 — resuming a partially applied file whose applied part changed is refused, cleanly (API half).
 func C12(r *simkit.Run) {
 	const prop = "C12"
@@ -212,7 +221,14 @@ func C12(r *simkit.Run) {
 		round2, j = true, k+t.Draw("second-fail-at", len(newStmts)-k)
 		drv.FailAlways[newStmts[j]] = true
 	}
+	// The edited file is usually met by a later release of the tool.
+	if t.Chance("resumed-by-another-operator-version", 1, 2) {
+		if ex, err = migrate.NewExecutor(drv, dir, revs, migrate.WithOperatorVersion("sim-v2")); err != nil {
+			simkit.Harnessf("NewExecutor: %v", err)
+		}
+	}
 	before := viewOf(revs.Snapshot())
+	stampsBefore := stampsOf(revs.Snapshot())
 	nEffects := len(drv.Effects)
 	call := func(label string) (err error, panicked string) {
 		r.Step()
@@ -249,6 +265,19 @@ func C12(r *simkit.Run) {
 		}
 		if after := viewOf(revs.Snapshot()); fmt.Sprint(after) != fmt.Sprint(before) {
 			r.Fail(prop, "refuse-clean", "history-modified-on-refusal", "history-changed was reported but the history changed: before %v after %v", before, after)
+			return
+		}
+		// Untouched means every column: when the statements were executed, and by which release.
+		if after := stampsOf(revs.Snapshot()); after != stampsBefore {
+			// (The instants themselves are wall-clock readings: they are compared, never printed.)
+			var moved []string
+			b, a := strings.Fields(stampsBefore), strings.Fields(after)
+			for i := range a {
+				if i < len(b) && a[i] != b[i] {
+					moved = append(moved, a[i][:strings.IndexByte(a[i], '@')])
+				}
+			}
+			r.Fail(prop, "refuse-clean", "history-restamped-on-refusal", "history-changed was reported but the refused run rewrote executed_at / operator_version of revision %v", moved)
 			return
 		}
 		// A second attempt behaves the same.
